@@ -2,6 +2,7 @@ package main
 
 import (
 	"fmt"
+	"go/ast"
 	"go/constant"
 	"go/token"
 	"go/types"
@@ -349,7 +350,15 @@ func (e *Env) importedPkg(name string) *types.Package {
 			if p == nil {
 				continue
 			}
-			for _, f := range p.Syntax {
+			// the file that contains the clause's anchor position first: import names are per file
+			files := append([]*ast.File(nil), p.Syntax...)
+			for i, f := range files {
+				if e.pos.IsValid() && f.Pos() <= e.pos && e.pos < f.End() {
+					files[0], files[i] = files[i], files[0]
+					break
+				}
+			}
+			for _, f := range files {
 				for _, imp := range f.Imports {
 					path := strings.Trim(imp.Path.Value, `"`)
 					ip := p.Imports[path]
@@ -375,6 +384,12 @@ func (e *Env) pkgObject(obj types.Object) (Value, error) {
 	switch o := obj.(type) {
 	case *types.Const:
 		return constToValue(m, o.Val(), o.Type()), nil
+	case *types.Func:
+		// a package-level function used as a value
+		if fn := e.x.L.Prog.FuncValue(o); fn != nil {
+			return e.x.val(e.fr, e.st, fn), nil
+		}
+		return nil, fmt.Errorf("function %s has no SSA value", o.Name())
 	case *types.Var:
 		// global variable: load through its SSA global
 		if sp := e.x.L.Prog.Package(o.Pkg()); sp != nil {
@@ -465,7 +480,7 @@ func (e *Env) sel(ex ESel) (Value, error) {
 			return constToValue(e.x.smt, o.Val(), o.Type()), nil
 		case *types.TypeName:
 			return typeRef{o.Type()}, nil
-		case *types.Var:
+		case *types.Var, *types.Func:
 			return e.pkgObject(o)
 		}
 		return nil, fmt.Errorf("%s.%s is not a constant", pr.pkg.Name(), ex.Name)
